@@ -999,7 +999,7 @@ func (x *Exec) loopHeader(st *State, fr *Frame, h *ssa.BasicBlock, ord int, phis
 	// the events of the iterations already run: an unknown number of each kind the body can emit
 	toks, wild, dyn := x.loopEventTokens(fr.fn, li.body[h], fr.fn != x.root)
 	x.nSummary++
-	st.events = append(st.events, &Event{Kind: "loop-summary", Name: fmt.Sprintf("loop-summary#%d", x.nSummary), Index: len(st.events), Tokens: toks, Wild: wild, Dyn: dyn, ID: x.nSummary, Root: fr.fn == x.root})
+	st.events = append(st.events, &Event{Kind: "loop-summary", Name: fmt.Sprintf("loop-summary#%d", x.nSummary), Index: len(st.events), Tokens: toks, Wild: wild, Dyn: dyn, ID: x.nSummary, Root: fr.fn == x.root, LoopOrd: li.headers[h]})
 	fr.loopEv[h] = len(st.events)
 	if spec != nil {
 		sc2 := x.specCtxFor(st, fr, fr.pre)
